@@ -150,7 +150,9 @@ CNoRead ==        \* can_read() was false
     /\ UNCHANGED <<cs, rstore, heads, wp, inVain, gotAck, cpc, s2c, spc, st, mvars, outcome>>
 
 MofStart(hs) ==
-    \E tg \in (IF cs.inctag THEN TaggedChoices(U_, TagsOf(U_)) ELSE {<<>>}) :
+    \* get_tagged() returns {} when the backend repository has no .repo attribute (a plain Repo
+    \* behind FileSystemBackend): include-tag then adds nothing
+    \E tg \in (IF cs.inctag THEN TaggedChoices(U_, TagsOf(U_)) \cup {<<>>} ELSE {<<>>}) :
          LET i == MofInit(U_, SStore, hs, cs.wants) IN
          /\ tagged' = tg
          \* negative control: every advertised tag is added, whether or not its target is sent
